@@ -100,7 +100,7 @@ def script_of(trace_file, l):
     i = l - 1
     while i > 0 and evs[i]["ev"] != "load":
         i -= 1
-    if evs[l - 1]["ev"] in ("transp", "uciPosition", "uciRep", "uciPerft", "uciMoves"):
+    if evs[l - 1]["ev"] in ("transp", "uciPosition", "uciRep", "uciPerft", "uciMoves", "zkeys"):
         return {"event": evs[l - 1]}
     ops = []
     for ev in evs[i + 1:l]:
